@@ -5,5 +5,6 @@ PM == INSTANCE PushMonitor
 VARIABLES l, poss, cur, failed, skip
 MInit(e) == {PM!PMInit(e)}
 MStep(s, e) == PM!PMStep(s, e)
-INSTANCE TraceLoop WITH InitStates <- MInit, Step <- MStep
+NoOne(e) == ""
+INSTANCE TraceLoop WITH InitStates <- MInit, Step <- MStep, One <- NoOne
 =============================================================================
